@@ -4,7 +4,7 @@
 set -u
 out="$1"; shift
 ids="${*:-C01 C02 C03 C04 C05 C06 C07 C08 C09 C10 C11 C12 C13 C14 C15 C16 C17 C18}"
-MX=/tmp/mx
+MX=${MX:-/tmp/mx}
 rm -rf $MX; mkdir -p $MX/verif
 git -C /repo worktree prune
 git -C /repo worktree add -q --detach $MX/repo HEAD || exit 2
